@@ -64,11 +64,12 @@ def decodeOp : Handler := fun args =>
       | "Options" => some (decodeOptions v)
       | "DeviceCount" => some (decodeDeviceCount v)
       | "UlimitsConfig" => some (decodeUlimit v)
+      | "ShellCommand" => (match v with | .str _ => none | v => some (decodeShellCommandList v))
       | _ => none
     match r with
     | none => Json.mkObj [("bad", "type")]
     | some none => Json.mkObj [("err", "decode")]
-    | some (some .null) => Json.mkObj [("panic", "decode")]
+    | some (some .null) => Json.mkObj [("ok", Json.null)]
     | some (some r) => Json.mkObj [("ok", r.toJson)]
 
 def pathCleanOp : Handler := fun args => Json.mkObj [("ok", str (pathClean (getStr args "s").toList))]
